@@ -509,6 +509,30 @@ hands its request over to a shared flow on another URL, whose end leads back - w
 round in a circle and has to be refused, and an acyclic variant that chains the flows the
 ordinary way; the dry run builds the flows in either order).
 
+Fifteenth wave (suffix o), 16 changes: 7 were caught as delivered (C01o, C05o, C06o, C09o,
+C10o, C19o, C20o), C18o by the C06 check (a request published in the queue before it is
+registered with the watcher: a waiter nobody serves), two more by generators widened while the
+sub-agents were at work (C12o: what a response remedy adds to one replay is not part of the
+next one; C15o: `get` beside `GET` - another spelling of a method is another endpoint); 6 were
+missed at first. What was changed:
+C03o (query strings were decodable pair by pair: `q=1&d=100%` and `n=a;b&q=1` are among them
+now - a neighbouring pair that cannot be decoded takes nothing away from the parameter a flow
+asks for; on the unchanged tree that alarmed for URLs that do not parse as a whole, where the
+fallback of the earlier repair `2a196b5` dropped every parameter: corrected, fix `d785a5b`),
+C04o (flows had at most a dozen connections per direction and listed the connection from the
+stream's start first: one flow in five has 6-9 request filters, one in three lists the entry
+connection anywhere among the others; the order of the others - the order of a fan-out -
+stays),
+C11o (a reload took no time: one step in ten is a reload whose HAProxy step takes 2-12 s,
+transactions first seen in the meantime belong to the version that is still current, which
+has to be kept for the whole retention period after it was superseded),
+C08o (R3 compared the directory with old+payload only when no fault had fired; an update that
+meets a fault and is answered 200 all the same is judged like any other accepted update now -
+24 000 runs of the unchanged tree without a report),
+C02o (the quota's filter never had a header condition: a quarter of the runs without a parent
+give it one; responses may carry a header of that name with another value),
+C17o (the long sequence ids had 50 characters: a third of them have 275 now).
+
 ### 12.1 Reverting the repairs
 
 `tools/revert_all_fixes.py` reverts every `fix:` commit, one at a time, in a scratch worktree
